@@ -544,10 +544,6 @@ class kMinPathErrorCycles(walkmodel.AbstractWalkModelDiGraph):
         solution_walks = self._solution.get("_walks_internal", self._solution["walks"])
         solution_weights = self._solution["weights"]
         solution_slacks = self._solution["slacks"]
-        for walk in solution_walks:
-            if len(walk) == 1:
-                utils.logger.error(f"{__name__}: Encountered a solution walk with length 1, which is not allowed.")
-                raise ValueError("Solution walk with length 1 encountered.")
         solution_walks_of_edges = [
             [(walk[i], walk[i + 1]) for i in range(len(walk) - 1)]
             for walk in solution_walks
